@@ -280,6 +280,16 @@ func (c *checkSchema) collectAllowedJsonTypes(node ischema.Node, ss map[string]i
 	typesConstraint := node.Constraint(constraint.TypesListConstraintType)
 
 	if typesConstraint == nil {
+		if node.Constraint(constraint.EnumConstraintType) != nil ||
+			node.Constraint(constraint.AnyConstraintType) != nil {
+			// The JSON kind of an enum or "any" type is not that of its own example:
+			// an enum may list values of several kinds, "any" admits everything.
+			// The value itself is checked against the type's rules afterwards.
+			for _, t := range json.AllTypes {
+				c.allowedJsonTypes[t] = struct{}{}
+			}
+			return
+		}
 		c.allowedJsonTypes[node.Type()] = struct{}{}
 		return
 	}
